@@ -388,6 +388,35 @@ func runC17(c *ctxT) {
 	if c.Thorough {
 		nLoop = 600
 	}
+	// directed: the vSwitch of the first interface runs dry right after it was created; the second pod's address
+	// assignment on that interface is refused for lack of addresses, and the interface the controller then creates
+	// must not name that vSwitch again
+	for k := 0; k < 8; k++ {
+		dual := k%2 == 1
+		cfg := ipamCfg{V4: true, V6: dual, Adapters: 4, V4Per: 4, V6Per: 4, MinPool: 0, MaxPool: 0, Pods: 4, Initial: "empty", VSWFree: 5000}
+		h := newIpamHist(c, "C17", 970000+k, cfg, int64(970000+k)+r.Seed)
+		fmt.Printf("CASE C17 directed-loop %d cfg %+v\n", 970000+k, cfg)
+		for i := 0; i < 3; i++ {
+			h.writePod(h.newPod(i, false))
+			for j := 0; j < 3; j++ {
+				_, _ = h.reconcile()
+			}
+			if i == 0 {
+				// other nodes take what is left of the vSwitch the first interface landed on
+				h.cloud.Mutate(func(cc *cloudsim.CtrlCloud) {
+					for _, e := range cc.ENIs {
+						if v := cc.VSWs[e.VSW]; v != nil && !e.Deleted {
+							v.Free = 0
+						}
+					}
+				})
+				h.mon.note("the vSwitch of the first interface has no address left")
+			}
+		}
+		r.Eval(1)
+		r.Count("closed_loop_directed_cases", 1)
+		h.finish(r, true)
+	}
 	runIpamHistories(c, "C17", nLoop, 40, func(i int, hr *rand.Rand) ipamCfg {
 		cfg := genIpamCfg(hr)
 		cfg.Adapters = max(cfg.Adapters, 4)
